@@ -531,7 +531,7 @@ def signature(trace, violation):
 
 PROBES = ['query-after-reregistration', 'reregistration-over-warm-table', 'holiday-run-across-month-end', 'modified-following-falls-back',
           'single-step-before-populate', 'query-near-range-edge']
-TIERS = {'quick': {'runs': 6000, 'wallcap': 50}, 'thorough': {'runs': 250000, 'wallcap': 800}}
+TIERS = {'quick': {'runs': 6000, 'wallcap': 50}, 'thorough': {'runs': 350000, 'wallcap': 800}}
 COMPONENTS = {
     'real': ['pyg_base._drange Calendar (is_bday, is_holiday, adjust, add, bdays, drange, dt_bump, clock, _populate)', 'pyg_base._drange.calendar() and the calendars registry',
              'dateutil.rrule (table construction)'],
